@@ -183,6 +183,7 @@ def run(chk):
     srcdst.rule_out_reads(chk, cf.PROGRAM[0] or cf.Program(), 'O1', floor=150)
     from . import twins
     twins.rule_field_copies(chk, cf.PROGRAM[0] or cf.Program(), 'X4', floor=40)
+    twins.rule_lane_suffix(chk, cf.PROGRAM[0] or cf.Program(), 'X7', floor=60)
     from . import c06 as _c06
     _c06.run_t7(chk, cf.PROGRAM[0] or cf.Program())
     from . import clones as _cl
